@@ -14,8 +14,8 @@
 //   * a 32-bit wire field widened to a host field is zero-extended;
 //   * a field the source does not have is zero in the result.
 //
-// `//@inputs` lines give, in order of the kani::any() calls, the names of the
-// symbolic inputs; run.py uses them to label CBMC counterexample values.
+// `//@inputs <harness>: ...` lines give, in order of the kani::any() calls, the
+// names of the symbolic inputs; run.py uses them to label CBMC counterexample values.
 
 use core::time::Duration;
 use fuse_backend_rs::abi::fuse_abi::{stat64, statvfs64, Attr, EntryOut, Kstatfs, SetattrIn};
@@ -92,7 +92,7 @@ macro_rules! assert_attr_carries_stat {
     }};
 }
 
-//@inputs @stat64, flags:u32
+//@inputs conv_with_flags: @stat64, flags:u32
 #[kani::proof]
 fn conv_with_flags() {
     let st = any_stat64();
@@ -105,7 +105,7 @@ fn conv_with_flags() {
     assert_attr_carries_stat!("C13.conv.with_flags", a, st, flags);
 }
 
-//@inputs @stat64
+//@inputs conv_attr_from_stat64: @stat64
 #[kani::proof]
 fn conv_attr_from_stat64() {
     let st = any_stat64();
@@ -115,7 +115,7 @@ fn conv_attr_from_stat64() {
     assert_attr_carries_stat!("C13.conv.attr_from_stat64", a, st, 0u32);
 }
 
-//@inputs @attr
+//@inputs conv_stat64_from_attr: @attr
 #[kani::proof]
 fn conv_stat64_from_attr() {
     let a = any_attr();
@@ -141,7 +141,7 @@ fn conv_stat64_from_attr() {
     assert!(st.st_dev == 0, "C13.conv.stat64_from_attr: st.st_dev == 0 (not carried by the wire format)");
 }
 
-//@inputs @attr
+//@inputs conv_attr_roundtrip: @attr
 #[kani::proof]
 fn conv_attr_roundtrip() {
     // wire -> host -> wire is the identity on every field except `flags`
@@ -167,7 +167,7 @@ fn conv_attr_roundtrip() {
     assert!(b.flags == 0, "C13.conv.attr_roundtrip: flags == 0 (struct stat cannot carry them)");
 }
 
-//@inputs f_bsize:u64, f_frsize:u64, f_blocks:u64, f_bfree:u64, f_bavail:u64, f_files:u64, f_ffree:u64, f_favail:u64, f_fsid:u64, f_flag:u64, f_namemax:u64
+//@inputs conv_kstatfs_from_statvfs64: f_bsize:u64, f_frsize:u64, f_blocks:u64, f_bfree:u64, f_bavail:u64, f_files:u64, f_ffree:u64, f_favail:u64, f_fsid:u64, f_flag:u64, f_namemax:u64
 #[kani::proof]
 fn conv_kstatfs_from_statvfs64() {
     let mut sv: statvfs64 = unsafe { core::mem::zeroed() };
@@ -199,7 +199,7 @@ fn conv_kstatfs_from_statvfs64() {
     );
 }
 
-//@inputs valid:u32, padding:u32, fh:u64, size:u64, lock_owner:u64, atime:u64, mtime:u64, ctime:u64, atimensec:u32, mtimensec:u32, ctimensec:u32, mode:u32, unused4:u32, uid:u32, gid:u32, unused5:u32
+//@inputs conv_stat64_from_setattr_in: valid:u32, padding:u32, fh:u64, size:u64, lock_owner:u64, atime:u64, mtime:u64, ctime:u64, atimensec:u32, mtimensec:u32, ctimensec:u32, mode:u32, unused4:u32, uid:u32, gid:u32, unused5:u32
 #[kani::proof]
 fn conv_stat64_from_setattr_in() {
     let s = SetattrIn {
@@ -242,7 +242,7 @@ fn conv_stat64_from_setattr_in() {
     );
 }
 
-//@inputs inode:u64, generation:u64, @stat64, attr_flags:u32, attr_secs:u64, attr_nanos:u32, entry_secs:u64, entry_nanos:u32
+//@inputs conv_entry_out_from_entry: inode:u64, generation:u64, @stat64, attr_flags:u32, attr_secs:u64, attr_nanos:u32, entry_secs:u64, entry_nanos:u32
 #[kani::proof]
 fn conv_entry_out_from_entry() {
     let inode: u64 = kani::any();
